@@ -1,9 +1,10 @@
 import GateryModel.C01.Spec
+import Driver.NodesCommon
 /-!
 Driver for C01: checks the relation `F` between the reference trace and (a) the trace after every post-processing pass
 that changed the printed trace, (b) the final trace. PROPFAIL = `F` fails (concrete design + stimulus + cycle + pass).
 -/
-open Gatery.C01
+open Gatery.C01 Gatery.Nodes
 
 structure Case where
   id : String := ""
@@ -14,6 +15,9 @@ structure Case where
   passes : List (Nat × String × String) := []
   ppfail : Bool := false
   hasFin : Bool := false
+  netTag : String := ""                                  -- netlist being read / last read
+  nets : List (String × Array (NetNode × String)) := []  -- tag ↦ nodes (with kind name)
+  curNet : Array (NetNode × String) := #[]
 
 structure Stats where
   cases : Nat := 0
@@ -27,6 +31,11 @@ structure Stats where
   changedBoundaries : Nat := 0     -- boundaries whose trace differs textually from the reference (x -> defined etc.)
   cycles : Nat := 0
   regCases : Nat := 0
+  nets : Nat := 0
+  netSkips : Nat := 0
+  nodeEvals : Nat := 0           -- node values recomputed with the Lean node semantics and compared with the simulator
+  netCycles : Nat := 0
+  kindHist : List (String × Nat) := []
   hist : List (String × Nat) := []
 
 def bump (h : List (String × Nat)) (k : String) : List (String × Nat) :=
@@ -67,6 +76,33 @@ def finish (c : Case) (st : Stats) : IO Stats := do
     st := { st with diffs := st.diffs + 1 }
   return st
 
+
+/-- re-evaluate every node of a dumped netlist with `Gatery.Nodes.evalNode` on the implementation's values of its inputs
+    (pins and register outputs are taken from the implementation); returns the indices where the implementation differs -/
+def recheck (nodes : Array (NetNode × String)) (impl : Array (Option BV4)) : List (Nat × String × String) × Nat := Id.run do
+  let mut bad : List (Nat × String × String) := []
+  let mut evals := 0
+  -- values seen by consumers: the implementation's value where it has one; signal nodes own no simulator state
+  -- (`?`): they forward the value of their driver
+  let mut vals : Array (Option BV4) := Array.replicate nodes.size none
+  for i in [0:nodes.size] do
+    let (n, name) := nodes[i]!
+    let ins : Ins := n.ins.map fun o => match o with | none => none | some j => (vals.getD j none)
+    let model : Option BV4 := match n.kind with
+      | .signal => ins.getD 0 none
+      | .node k _ => some (evalNode k n.w ins)
+      | .input _ => impl.getD i none
+    match impl.getD i none with
+    | none => vals := vals.set! i (if name == "sig" then model else none)
+    | some v =>
+      vals := vals.set! i (some v)
+      if name != "in" && name != "reg" then
+        evals := evals + 1
+        match model with
+        | some m => if m != v then bad := (i, BV4.toString m, BV4.toString v) :: bad
+        | none => if name != "sig" then bad := (i, "none", BV4.toString v) :: bad
+  return (bad.reverse, evals)
+
 partial def loop (h : IO.FS.Stream) (c : Case) (st : Stats) : IO Stats := do
   let line ← h.getLine
   if line.isEmpty then finish c st
@@ -87,6 +123,29 @@ partial def loop (h : IO.FS.Stream) (c : Case) (st : Stats) : IO Stats := do
                         changedBoundaries := st.changedBoundaries + (if status == "diff" then 1 else 0) }
     loop h { c with passes := c.passes ++ [(i.toNat!, name, status)] } st
   | "ppfail" :: _ => loop h { c with ppfail := true } st
+  | ["netbegin", tag] => loop h { c with netTag := tag, curNet := #[] } st
+  | "netskip" :: _ => loop h c { st with netSkips := st.netSkips + 1 }
+  | "n" :: rest =>
+    match Drv.parseNode rest with
+    | some (n, _, name) => loop h { c with curNet := c.curNet.push (n, name) } { st with kindHist := bump st.kindHist name }
+    | none =>
+      IO.println s!"DIFF case={c.id} what=unparsed-net-node line=[{line.trimAscii}]"
+      loop h c { st with diffs := st.diffs + 1 }
+  | ["netend", tag] => loop h { c with nets := (tag, c.curNet) :: c.nets } { st with nets := st.nets + 1 }
+  | "nv" :: tag :: cyc :: vals =>
+    match c.nets.find? (·.1 == tag) with
+    | none => loop h c st
+    | some (_, nodes) =>
+      let impl : Array (Option BV4) := (vals.map fun s => if s == "?" then none else some (BV4.ofString s)).toArray
+      let (bad, evals) := recheck nodes impl
+      let mut st := { st with nodeEvals := st.nodeEvals + evals, netCycles := st.netCycles + 1 }
+      match bad with
+      | [] => pure ()
+      | (i, m, v) :: _ =>
+        let kind := (nodes[i]?.map (·.2)).getD "?"
+        IO.println s!"DIFF case={c.id} what=backbone net={tag} cycle={cyc} node={i} kind={kind} model={m} impl={v} (and {bad.length - 1} more)"
+        st := { st with diffs := st.diffs + 1 }
+      loop h c st
   | ["end"] =>
     let st ← finish c st
     loop h {} st
@@ -95,4 +154,4 @@ partial def loop (h : IO.FS.Stream) (c : Case) (st : Stats) : IO Stats := do
 def main : IO Unit := do
   let st ← loop (← IO.getStdin) {} {}
   let hist := ",".intercalate (st.hist.map fun (k, n) => s!"\"{k}\":{n}")
-  IO.println s!"SUMMARY \{\"cases\":{st.cases},\"ops\":{st.ops},\"diffs\":{st.diffs},\"propfails\":{st.propfails},\"fully_defined_reference_runs\":{st.adefCases},\"postprocess_threw\":{st.ppfail},\"pass_boundaries\":{st.boundaries},\"boundaries_not_simulatable\":{st.nosim},\"boundaries_with_changed_trace\":{st.changedBoundaries},\"cycles\":{st.cycles},\"hist\":\{{hist}}}"
+  IO.println s!"SUMMARY \{\"cases\":{st.cases},\"ops\":{st.ops},\"diffs\":{st.diffs},\"propfails\":{st.propfails},\"fully_defined_reference_runs\":{st.adefCases},\"postprocess_threw\":{st.ppfail},\"pass_boundaries\":{st.boundaries},\"boundaries_not_simulatable\":{st.nosim},\"boundaries_with_changed_trace\":{st.changedBoundaries},\"cycles\":{st.cycles},\"netlists_rechecked\":{st.nets},\"netlists_skipped\":{st.netSkips},\"node_values_rechecked_with_lean_semantics\":{st.nodeEvals},\"hist\":\{{hist}}}"
